@@ -77,6 +77,8 @@ func init() {
 					hs[0].BasicPw = vpBasicPw
 				case "two":
 					hs = append(hs, vpHeaderCfg{Name: name, Claim: "email", Preserve: h.Preserve})
+				case "dup":
+					hs = append(hs, vpHeaderCfg{Name: name, Claim: claim, Preserve: h.Preserve})
 				}
 				cfg.Legacy = nil
 				cfg.Structured = true
@@ -95,6 +97,7 @@ func init() {
 			}
 			defer w.close()
 			w.idp.addUser("nogrp", vpUser{Sub: "sub-nogrp", Email: "nogrp@example.com"})
+			w.idp.addUser("egrp", vpUser{Sub: "sub-egrp", Email: "egrp@example.com", Groups: []string{"", "g1", "g2"}, Username: "egrp"})
 			for _, c := range cs {
 				in := c.In
 				src := vpS(in, "source")
@@ -126,6 +129,9 @@ func init() {
 					ok = loginAs("alice")
 				case "cookie_nogrp":
 					ok = loginAs("nogrp")
+				case "cookie_emptygrp":
+					ok = loginAs("egrp")
+					grp = []string{"g1", "g2"} // the empty name is no value
 				case "bearer", "xbearer":
 					idp := w.idp
 					if src == "xbearer" {
